@@ -169,6 +169,7 @@ class Undefined:
 def ghost_env(bound):
     """native meaning of the contract-language ghosts"""
     rng = range(-1, bound + 2)
+    from .speceval import SPEC_CONSTS  # noqa: F401
 
     def forall(f):
         n = f.__code__.co_argcount
